@@ -191,12 +191,16 @@ class Pool:
             if r is None:
                 continue
             if snapshots is not None and i not in touched:
-                if replcheck.snapshot(r) != snapshots[i]:
+                if i < len(snapshots) and snapshots[i] is not None and replcheck.snapshot(r) != snapshots[i]:
                     raise Violation("%s:untouched-object-changed" % self.prefix, "object %d changed although the operation did not involve it (%s)" % (i, where), site=where.split(" ")[0])
                 continue
             refmodel.structural_invariants(r, where)
             refmodel.compare(refmodel.abstract(r), m, self.prefix, where, **cmp_kw)
             self.signature(r)
+            self.ctx.count("comparisons")
+            if cmp_kw.get("order") == "any":
+                # equivalence up to atom order established: continue the history in the real object's order
+                self.model[i] = refmodel.abstract(r)
 
     def signature(self, r):
         sig = (type(r.atom_type_elements).__name__, type(r.atom_type_labels).__name__, type(r.atom_type_masses).__name__,
@@ -292,6 +296,9 @@ def apply_op(pool, op, ctx, prefix="c09"):
         if j == o:
             other_r, other_m = guarded(prefix, "copy", R[j].copy), M[j].clone()
         imap = {}
+        if mode == "map_all" and ns and no:
+            imap = {i: i for i in range(min(ns, no))}
+            ctx.count("overlay_extensions")
         if mode == "map" and ns and no:
             k = max(1, min(ns, no, int(op.get("map_frac", 0.5) * min(ns, no)) or 1))
             oi = pick_indices(op["map_other"][:k], no)
@@ -327,7 +334,28 @@ def apply_op(pool, op, ctx, prefix="c09"):
             return set()
         dims = tuple(int(d) for d in op["dims"])
         r = guarded(prefix, "replicate%s" % (dims,), R[s].replicate, dims)
-        i = pool.add(r, M[s].replicate(dims))
+        # no image order is prescribed: read the order of the image blocks off the result (if it has block structure)
+        order = None
+        try:
+            n0 = len(M[s].atoms)
+            rp = np.asarray(r.positions, float).reshape(-1, 3)
+            if len(rp) == n0 * int(np.prod(dims)):
+                p0 = np.array([a.pos for a in M[s].atoms])
+                inv = np.linalg.inv(np.array(M[s].cell, float))
+                order = []
+                for b in range(int(np.prod(dims))):
+                    off = rp[b * n0:(b + 1) * n0] - p0
+                    ijk = np.round(off[0] @ inv)
+                    if np.abs(off - ijk @ np.array(M[s].cell, float)).max() > 1e-6:
+                        order = None
+                        break
+                    order.append(tuple(int(x) for x in ijk))
+                if order is not None and sorted(order) != sorted((i, j, k) for i in range(dims[0]) for j in range(dims[1]) for k in range(dims[2])):
+                    order = None
+        except Exception:
+            order = None
+        i = pool.add(r, M[s].replicate(dims, image_order=order))
+        pool._replicate_blocks = order is not None
         pool._replicated = i
         return {i}
     raise HarnessError("unknown op %r" % (op,))
@@ -371,3 +399,126 @@ def gen_ops(rng, nobj, nops, cfg, weights=None):
             ops.append({"op": "restart", "obj": rng.randrange(cur), "style": rng.choice(["full", "full", "atomic"]),
                         "via": rng.choice(["path", "file", "save_lmpdat"]), "fault": None})
     return ops
+
+
+def build_pool(spec, ctx, prefix):
+    from mofun import Atoms
+    pool = Pool(ctx, prefix)
+    for o in spec["objects"]:
+        try:
+            if o.get("empty"):
+                r, m = Atoms(), RefAtoms()
+            else:
+                r, m = build_real(o), RefAtoms.from_spec(o)
+        except Exception as e:
+            raise Violation("raises:%s" % type(e).__name__, "constructing a consistent object (%s idiom): %s" % (o.get("idiom", "empty"), e), site="constructor")
+        pool.add(r, m)
+    pool.check_all("construct")
+    return pool
+
+
+def run_history(pool, ops, ctx, prefix, on_restart=None):
+    """Apply ops one by one; after every step compare involved objects with the model, all others bit-identical."""
+    changed = 0
+    for k, op in enumerate(ops):
+        snaps = pool.snapshots()
+        if op["op"] == "restart":
+            touched = on_restart(pool, op, k) if on_restart else set()
+        else:
+            touched = apply_op(pool, op, ctx, prefix)
+        if touched:
+            changed += 1
+        cmp_kw = {}
+        if op["op"] == "replicate" and touched:
+            cmp_kw = dict(order="exact" if getattr(pool, "_replicate_blocks", False) else "any", pos_tol=1e-9, cell_tol=1e-9)
+        pool.check_all("%s (step %d)" % (op["op"], k), touched=touched, snapshots=snaps, **cmp_kw)
+    return changed
+
+
+def shrink_history(spec):
+    ops = spec["ops"]
+    n = len(ops)
+    for cut in (n // 2, n - 1):
+        if 0 < cut < n:
+            s = copy.deepcopy(spec)
+            s["ops"] = ops[:cut]
+            yield s
+    for i in range(n - 1, -1, -1):
+        s = copy.deepcopy(spec)
+        del s["ops"][i]
+        yield s
+    for i, op in enumerate(ops):
+        if op.get("fault"):
+            s = copy.deepcopy(spec)
+            s["ops"][i]["fault"] = None
+            yield s
+        if op["op"] == "delete" and len(op["picks"]) > 1:
+            s = copy.deepcopy(spec)
+            s["ops"][i]["picks"] = op["picks"][:-1]
+            yield s
+        if op.get("container") not in (None, "list"):
+            s = copy.deepcopy(spec)
+            s["ops"][i]["container"] = "list"
+            yield s
+    for i, o in enumerate(spec["objects"]):
+        if o.get("empty"):
+            continue
+        for k in KINDS:
+            if o[PLURAL[k]]:
+                s = copy.deepcopy(spec)
+                so = s["objects"][i]
+                so[PLURAL[k]], so["%s_types" % k], so["%s_type_coeffs" % k] = [], [], []
+                so["extra_%s_labels" % k], so["extra_%s_fields" % k] = [], []
+                yield s
+        if o.get("extra_atom_labels"):
+            s = copy.deepcopy(spec)
+            s["objects"][i]["extra_atom_labels"], s["objects"][i]["extra_atom_fields"] = [], []
+            yield s
+        if o.get("container") != "list":
+            s = copy.deepcopy(spec)
+            s["objects"][i]["container"] = "list"
+            yield s
+
+
+def gen_world(rng, nobj=(2, 4), nops=(0, 5), weights=None, restartable=True, cell_prob=0.85, max_atoms=10, empty_prob=0.05, overlay=0.0):
+    cfg = gen_cfg(rng, restartable=restartable)
+    width = rng.uniform(6, 14)
+    cell = geom.make_cell(rng, cfg["cell_family"], width, [], roomy=(1.0, 1.4)).tolist() if rng.random() < cell_prob else None
+    n = rng.randint(*nobj)
+    els = rng.sample(SAFE_ELEMENTS, rng.randint(2, 5))
+    objs = []
+    for i in range(n):
+        if rng.random() < empty_prob:
+            objs.append({"name": "o%d" % i, "empty": True})
+        else:
+            objs.append(gen_fragment(rng, cfg, "o%d" % i, natoms=rng.randint(1, max_atoms), cell=cell if rng.random() < 0.9 else None, elements=els))
+    ops = gen_ops(rng, n, rng.randint(*nops), cfg, weights=weights)
+    if overlay and not objs[0].get("empty") and rng.random() < overlay:
+        # an overlay of object 0: the same atoms, terms re-defined on the same atom tuples (forwards, backwards, or in a
+        # non-reversed permutation = a different term) with its own types/coefficients; extended with the full identity map
+        base = objs[0]
+        ov = gen_fragment(rng, cfg, "ov", natoms=len(base["positions"]), cell=base.get("cell"), elements=els)
+        ov["positions"] = copy.deepcopy(base["positions"])
+        for k in KINDS:
+            tuples = []
+            for tup in base[PLURAL[k]]:
+                r = rng.random()
+                if r < 0.3:
+                    tuples.append(list(tup))
+                elif r < 0.6:
+                    tuples.append(list(tup)[::-1])
+                elif r < 0.75:
+                    p = list(tup)
+                    rng.shuffle(p)
+                    tuples.append(p)
+            if tuples:
+                nt = rng.randint(1, 2)
+                ov[PLURAL[k]] = tuples
+                ov["%s_types" % k] = [rng.randrange(nt) for _ in tuples]
+                ov["%s_type_coeffs" % k] = [gen_coeff(rng, "%sov%d" % (k[0], i)) for i in range(nt)] if cfg["tabled"][k] else []
+                use = [l for l in cfg["xlabels"][k] if rng.random() < 0.7]
+                ov["extra_%s_labels" % k] = use
+                ov["extra_%s_fields" % k] = [["%sov%d_%d" % (k[0], i, j) for j in range(len(use))] for i in range(len(tuples))] if use else []
+        objs.append(ov)
+        ops.insert(rng.randint(0, len(ops)), {"op": "extend", "obj": 0, "other": len(objs) - 1, "mode": "map_all"})
+    return {"seed": rng.getrandbits(31), "cfg": cfg, "objects": objs, "ops": ops}
